@@ -211,7 +211,7 @@ def check(run):
         "foreign-field gate groups are decided by the chain A (aux polynomials vanish over Z), B (CRT reconstruction of the common integer expression), C (magnitude bound), D (CRT lemma), E (lifting to true powers of the base): every link is a solver query or a ground arithmetic fact; the composition of the links is the standard CRT argument and is performed by the checker",
         "products of two range-checked limbs are exact integers (bounds established from the system's own range checks) and are shared opaque atoms between gates and specification",
     ]
-    run.outside += ["completeness beyond the concrete honest runs", "BigUint gadgets, mod_exp, bit/byte conversions of emulated elements (to be added)", "bn256 parameter sets (dev-curves feature)"]
+    run.outside += ["completeness beyond the concrete honest runs", "BigUint gadgets, mod_exp, bit/byte conversions of emulated elements: part C05_B", "bn256 parameter sets (dev-curves feature)"]
     run.bounds += [f"tier={t}: {len(ents)} (field, operation) shapes; emulated fields {sorted(set(e['params']['field'] for e in ents))} over the BLS12-381 scalar field; k=11"]
     run.notes.append("Engine C + chained foreign-field obligations: Sys => val(out) == f(val(in)) (mod m) for all limb representations within the chip's bounds.")
     cengine.run_family(run, "foreign", ents, timeout=60 if t == "quick" else 600, only=getattr(run, "only", None), workers=6)
